@@ -25,6 +25,7 @@ type monC12 struct {
 	ent           map[PosKey]sdk.Coins
 	precisionLoss bool
 	maxTokens     *big.Rat
+	inflatedBySlash bool
 }
 
 func newMonC12() *monC12 {
@@ -147,6 +148,14 @@ func (m *monC12) OnStep(r *Runner, st *Step) {
 			D := ratDec(decCoinsAmount(post.ValInfos[pk.Val].TotalDelegatorShares, pk.Denom))
 			relErr = radd(relErr, rmul(rquo(D, sh), big.NewRat(4, 1_000_000_000_000_000_000)))
 		}
+		// the floor(value + 0.01) effect cuts both ways (a position worth 3.9 is paid for 3 tokens): when the share
+		// of a reward that goes through such a position shrinks in a step, the aggregate entitlement grows by up
+		// to one token's worth of what the position could claim before the step
+		if v.Sign() > 0 {
+			for _, c := range m.ent[pk] {
+				rounder[c.Denom] = radd(getR(rounder, c.Denom), radd(rquo(ratInt(c.Amount), v), big.NewRat(1, 1)))
+			}
+		}
 		for _, c := range ent[pk] {
 			fracBound[c.Denom] = radd(getR(fracBound, c.Denom), rmul(ratInt(c.Amount), relErr))
 			E[c.Denom] = radd(getR(E, c.Denom), ratInt(c.Amount))
@@ -206,6 +215,13 @@ func (m *monC12) OnStep(r *Runner, st *Step) {
 			cls = "entitlement-inflated:token-rounding"
 		case grow.Cmp(radd(radd(getR(rounder, d), roundTol), getR(fracBound, d))) <= 0 || m.precisionLoss:
 			cls = "entitlement-inflated:validator-fraction-precision-loss"
+		case m.inflatedBySlash && prev.Sign() > 0 && grow.Cmp(rmul(prev, big.NewRat(1, 10000))) <= 0:
+			// the run already carries a deficit from an inflation by slash (open finding): positions are then valued
+			// inconsistently with the indexes, and re-splitting pending rewards moves the aggregate by a small fraction of it
+			cls = "entitlement-inflated:drift-on-existing-deficit"
+		}
+		if len(st.Slashes) > 0 {
+			m.inflatedBySlash = true
 		}
 		r.Violate("C12.c", cls, fmt.Sprintf("%s: entitlements in %s exceed what the pool holds after settling everything by %s (before this step: %s); nothing was received for the difference", st.Name, d, rstr(def), rstr(prev)))
 		if r.failed() {
